@@ -661,6 +661,9 @@ class Output(object):
         else:
             self._address = address
             self._address_obj = None
+        if isinstance(address, (Address, HDKey)) and address.network.name != self.network.name:
+            # Raises BKeyError if the address of this object is not valid on the network of this output
+            deserialize_address(self._address, network=self.network.name)
         self.public_key = to_bytes(public_key)
         self.compressed = True
         self.versionbyte = self.network.prefix_address
